@@ -57,6 +57,9 @@ type stats struct {
 	DryPredicted  int            `json:"dry_runs_compared_with_real_build"`
 	MultiRuns     int            `json:"same_process_run_sequences"`
 	GCs           int            `json:"gc_ops"`
+	Loads         int            `json:"load_only_ops"`
+	IndexLoads    int            `json:"index_preferring_loads_after_a_crash"`
+	SkipProbes    int            `json:"expect_skip_probes"`
 	GCRemoved     int            `json:"record_files_removed_by_gc"`
 	GCTemps       int            `json:"temporaries_removed_by_gc"`
 	Twins         int            `json:"twin_histories"`
@@ -239,6 +242,15 @@ func (j *judge) each(i int, op *Op, root string, p *Proj, o *Obs, prev *Obs) {
 		st.GCs++
 		j.judgeGC(i, op, p, o, prev)
 		return
+	case "load":
+		st.Loads++
+		if o.Exit != exitOK {
+			j.viol("state-unloadable", i, "a process that only loads the project (PreferIndex=%v) exited %d: %s", op.PreferIndex, o.Exit, o.Stderr)
+		}
+		if len(o.BadRecords) > 0 {
+			j.viol("state-unloadable", i, "record files that do not decode after op %d: %v", i, o.BadRecords)
+		}
+		return
 	}
 	st.Builds++
 	if o.Exit == exitOK {
@@ -253,6 +265,17 @@ func (j *judge) each(i int, op *Op, root string, p *Proj, o *Obs, prev *Obs) {
 	}
 	if o.Exit != exitOK && o.Exit != exitBuildFail && o.Exit != exitCrash {
 		j.viol("process", i, "child exited %d: %s", o.Exit, o.Stderr)
+	}
+	if isCrash(op) && o.Crashed && j.prop == "C03" {
+		// the state must load both ways: from the build files (the next build does that) and preferring the index
+		if code, stderr, err := j.r.indexLoad(root); err != nil {
+			j.viol("harness", i, "index load: %v", err)
+		} else {
+			st.IndexLoads++
+			if code != exitOK {
+				j.viol("state-unloadable", i, "after the crash of op %d a load that prefers index.json exits %d: %s", i, code, stderr)
+			}
+		}
 	}
 	if isCrash(op) {
 		st.Crashes++
@@ -431,6 +454,26 @@ func (j *judge) after(main *played) {
 				}
 			}
 		}
+		// C02: targets whose inputs are what they last ran against are not executed
+		if len(op.ExpectSkip) > 0 {
+			clean := o.Exit == exitOK
+			for k := 0; k < i; k++ {
+				if obs[k] != nil && (h.Ops[k].Kind == "build" || h.Ops[k].Kind == "gc" || h.Ops[k].Kind == "load") &&
+					!h.Ops[k].Dry && (obs[k].Exit != exitOK || obs[k].Crashed || isFault(&h.Ops[k])) {
+					clean = false
+				}
+			}
+			if !clean {
+				j.st.ProbesSkipped++
+			} else {
+				j.st.SkipProbes++
+				for _, l := range op.ExpectSkip {
+					if setOf(o.ExecStart)[l] {
+						j.viol("spurious-rebuild", i, "%s last executed against exactly the inputs it has now (%s), yet its body executed in op %d", l, op.Note, i)
+					}
+				}
+			}
+		}
 		// C03: the build right after a failed or interrupted one re-executes what did not complete
 		if op.Kind == "build" && isFault(op) && i+1 < len(h.Ops) {
 			nx, no := &h.Ops[i+1], obs[i+1]
@@ -557,7 +600,7 @@ func (j *judge) after(main *played) {
 // runHistory plays one history with the judges of `prop`
 func runHistory(r *runner, prop string, h *History) (*played, []violation, *stats) {
 	if len(h.Runs) > 0 {
-		v, st := runMulti(r, h)
+		v, st := runMulti(r, prop, h)
 		return &played{}, v, st
 	}
 	st := newStats()
@@ -769,8 +812,10 @@ func main() {
 		}
 		r := &runner{exe: exe, cpu: 0, scratch: scratch}
 		main, viols, st := runHistory(r, *prop, &h)
-		for _, p := range main.pairs {
-			fmt.Fprintf(out, "C\tbuild.replay\t%s\t%s\n", p.in, p.out)
+		if !h.JudgeOnly {
+			for _, p := range main.pairs {
+				fmt.Fprintf(out, "C\tbuild.replay\t%s\t%s\n", p.in, p.out)
+			}
 		}
 		for _, v := range viols {
 			b, _ := json.Marshal(v)
@@ -814,6 +859,14 @@ func main() {
 			switch i % 5 {
 			case 1:
 				hs[i].Layout = "rootlink"
+				// observation, outside the five properties: filepath.WalkDir does not follow a symbolic link given as its
+				// root, so glob() in the ROOT package returns nothing when the project root itself is a symbolic link;
+				// projects with a root-package glob use the other layout
+				for _, t := range hs[i].Proj.Tgts {
+					if t.Glob != "" && t.Pkg == "" {
+						hs[i].Layout = "dawnlink"
+					}
+				}
 			case 3:
 				hs[i].Layout = "dawnlink"
 			}
@@ -827,6 +880,53 @@ func main() {
 			np, n3 = 3, -1
 		}
 		hs = append(hs, multiRunHistories(r, np, n3)...)
+		hs = append(hs, replHistories(r)...)
+		n = len(hs)
+	}
+	if *prop == "C01" {
+		hs = append(hs, boundaryHistories()...)
+		r := &rng{s: *seed*577 + 11}
+		nm := 12
+		if *tier == "thorough" {
+			nm = 150
+		}
+		hs = append(hs, multiTargetHistories(r, nm)...)
+		n = len(hs)
+	}
+	if *prop == "C14" {
+		r := &rng{s: *seed*313 + 17}
+		np := 2
+		if *tier == "thorough" {
+			np = 12
+		}
+		hs = append(hs, gcSameProcessHistories(r, np)...)
+		n = len(hs)
+	}
+	if *prop == "C13" {
+		r := &rng{s: *seed*911 + 5}
+		nf := 4
+		if *tier == "thorough" {
+			nf = 40
+		}
+		for i := 0; i < nf; i++ {
+			if h := dryFaultHistory(r); h != nil {
+				hs = append(hs, h)
+			}
+		}
+		n = len(hs)
+	}
+	if *prop == "C03" {
+		// index.json cut at many (thorough: every) lengths, then an index-preferring load
+		r := &rng{s: *seed*131 + 7}
+		var lengths []int
+		if *tier == "thorough" {
+			for l := 0; l < 2500; l++ {
+				lengths = append(lengths, l)
+			}
+		} else {
+			lengths = []int{0, 1, 2, 3, 10, 16, 17, 31, 32, 33, 63, 64, 100, 127, 128, 200, 255, 256, 300, 400, 511, 512, 700, 1000, 1500}
+		}
+		hs = append(hs, truncIndexHistories(r, lengths)...)
 		n = len(hs)
 	}
 	if *prop == "C03" {
@@ -875,9 +975,11 @@ func main() {
 	wg.Wait()
 
 	total := newStats()
-	for _, res := range results {
-		for _, p := range res.main.pairs {
-			fmt.Fprintf(out, "C\tbuild.history\t%s\t%s\n", p.in, p.out)
+	for hi, res := range results {
+		if !hs[hi].JudgeOnly {
+			for _, p := range res.main.pairs {
+				fmt.Fprintf(out, "C\tbuild.history\t%s\t%s\n", p.in, p.out)
+			}
 		}
 		for _, v := range res.viols {
 			b, _ := json.Marshal(v)
